@@ -72,6 +72,12 @@ type FuncVC struct {
 	footprints      map[string][]HeapKey
 	appNames        map[string]string
 	aliases         map[string]string // contract name -> local variable standing in for it (see verifyWithAliases)
+	pureTuples      map[string]*pureTuple
+	pureTupleOrder  []string
+	letOldCache     map[string]Val
+	immuneCells     []immuneCell
+	axiomStates     map[string]*State // heap versions spec functions were applied to
+	axiomStateOrder []string
 	cbAt            *ssa.BasicBlock
 	sideStack       [][]string
 	pureEnsDepth    int
@@ -703,6 +709,7 @@ func (fv *FuncVC) loopHeader(fr *Frame, h *ssa.BasicBlock, cur *State, reach str
 		fv.ctx.nfresh++
 		cur.heap = map[string]string{}
 		cur.epoch = 1000000 + fv.ctx.nfresh
+		cur.mergedFrom = nil
 		cur.touch()
 		restore()
 	} else {
@@ -811,7 +818,13 @@ func (fv *FuncVC) backEdge(fr *Frame, b, h *ssa.BasicBlock, st *State, cond stri
 	if ls != nil {
 		for _, inv := range ls.Invariants {
 			t := fv.evalClause(fv.frameEnv(fr, h, st), inv)
-			fv.oblige("inv.pres", fmt.Sprintf("loop%d:%s", li.ordinal, clauseLabel(inv)), cond, t, inv.Text, inv.Pos)
+			edgePos := ""
+			for k := len(b.Instrs) - 1; k >= 0 && edgePos == ""; k-- {
+				if p := fv.v.prog.Fset.Position(b.Instrs[k].Pos()); p.Line > 0 {
+					edgePos = fmt.Sprintf(" [back edge from line %d]", p.Line)
+				}
+			}
+			fv.oblige("inv.pres", fmt.Sprintf("loop%d:%s", li.ordinal, clauseLabel(inv)), cond, t, inv.Text+edgePos, inv.Pos)
 			// later clauses may rely on earlier ones at the same back edge
 			fv.ctx.Assume(Implies(cond, t))
 		}
@@ -975,6 +988,11 @@ func (fv *FuncVC) execValue(fr *Frame, b *ssa.BasicBlock, st *State, reach strin
 			fv.storeStruct(st, r, pt, fv.m.Zero(pt))
 		} else {
 			fv.store(st, &Addr{Kind: ACell, Base: r, T: pt}, fv.m.Zero(pt))
+			// a local variable cell that only this function assigns (no closure that captures it stores to it, and its
+			// address goes nowhere else): code called from here cannot change it, whatever else it writes
+			if x.Comment != "" && !isStructLike(pt) && cellOnlyAssignedHere(x) {
+				fv.immuneCells = append(fv.immuneCells, immuneCell{ref: r, t: pt})
+			}
 		}
 		return Val{T: x.Type(), C: []string{r}}
 	case *ssa.BinOp:
@@ -1669,4 +1687,60 @@ func (fv *FuncVC) globalConstFact(g *ssa.Global, gname string, pt types.Type) {
 		}
 	}
 	fv.assumed[fmt.Sprintf("global %s.%s holds its initial constant; checked: never assigned outside init", g.Pkg.Pkg.Path(), g.Name())] = true
+}
+
+type immuneCell struct {
+	ref string
+	t   types.Type
+}
+
+// cellOnlyAssignedHere: every use of the cell's address is a load or a store in the allocating function, or a
+// capture by a closure whose body only loads the captured variable
+func cellOnlyAssignedHere(a *ssa.Alloc) bool {
+	if a.Referrers() == nil {
+		return true
+	}
+	for _, r := range *a.Referrers() {
+		switch x := r.(type) {
+		case *ssa.Store:
+			if x.Val == ssa.Value(a) {
+				return false // the address itself is stored somewhere
+			}
+		case *ssa.UnOp, *ssa.DebugRef:
+		case *ssa.MakeClosure:
+			fn := x.Fn.(*ssa.Function)
+			for i, b := range x.Bindings {
+				if b != ssa.Value(a) {
+					continue
+				}
+				fvr := fn.FreeVars[i]
+				if fvr.Referrers() == nil {
+					continue
+				}
+				for _, fr := range *fvr.Referrers() {
+					switch y := fr.(type) {
+					case *ssa.UnOp, *ssa.DebugRef:
+					case *ssa.Store:
+						_ = y
+						return false
+					default:
+						return false // passed on (nested closure, call argument)
+					}
+				}
+			}
+		default:
+			return false
+		}
+	}
+	return true
+}
+
+// pureTuple: one combination of heap versions a spec function (with a reads clause) was applied to
+type pureTuple struct {
+	base      string
+	keys      []HeapKey
+	heapTerms []string
+	sorts     []Sort // argument sorts followed by heap sorts
+	argKinds  []string
+	rt        types.Type
 }
